@@ -91,7 +91,7 @@ def wl_keys_sigs(u):
             if L and rng.random() < 0.6: s = bytes([rng.choice((2, 3, 4, 6, 7))]) + s[1:]
             r = u.call("pubkey_parse", s or b'', cls="random_len")
             if r is not None and r.ret == 1: use_pubkey(u, r.b(1), "chained:pubkey")
-    for it in range(ctx.n(200, 6000)):
+    for it in ctx.iters(200, 6000):
         P = mulG(pools.valid_seckey(rng, 0.3)); enc = rng.choice((ser33(P), ser65(P), bytes([6 + (P[1] & 1)]) + ser65(P)[1:]))
         s = mutate(rng, enc) if it % 3 else enc
         r = u.call("pubkey_parse", s or b'', cls="mutated_valid")
@@ -124,7 +124,7 @@ def wl_keys_sigs(u):
         for op in ("sig_parse_der", "sig_parse_der_lax"):
             r = u.call(op, c, cls="der_long_form_lengths")
             if r is not None and r.ret == 1: use_sig(u, r.b(1), "chained:sig", good_pk)
-    for it in range(ctx.n(250, 8000)):
+    for it in ctx.iters(250, 8000):
         r_ = pools.scalar(rng, 0.5) % n; s_ = pools.scalar(rng, 0.5) % n
         d = der.serialize(r_, s_); m = mutate(rng, d) if it % 4 else d
         for op in ("sig_parse_der", "sig_parse_der_lax"):
@@ -141,7 +141,7 @@ def wl_musig(u):
     rng = u.rng; ctx = u.ctx
     P1 = mulG(11); P2 = mulG(12); o1 = u.call("pubkey_parse", ser33(P1), cls="setup", nt=False).b(1); o2 = u.call("pubkey_parse", ser33(P2), cls="setup", nt=False).b(1)
     kac = u.call("musig_pubkey_agg", o1 + o2, 2, 1, 1, cls="setup", nt=False).b(2)
-    for it in range(ctx.n(250, 8000)):
+    for it in ctx.iters(250, 8000):
         A = mulG(rng.randrange(1, n)); B = mulG(rng.randrange(1, n)); v = ser33(A) + ser33(B)
         if it % 5 == 1: v = bytes(33) + ser33(B)
         if it % 5 == 2: v = ser33(A) + bytes(33)
@@ -171,7 +171,7 @@ def wl_musig(u):
 
 def wl_adaptor_s2c_ell(u):
     rng = u.rng; ctx = u.ctx
-    for it in range(ctx.n(250, 8000)):
+    for it in ctx.iters(250, 8000):
         d = rng.randrange(1, n); y = rng.randrange(1, n); X = mulG(d); Y = mulG(y); msg = pools.msg32(rng)
         Xo = u.call("pubkey_parse", ser33(X), cls="setup", nt=False).b(1); Yo = u.call("pubkey_parse", ser33(Y), cls="setup", nt=False).b(1)
         a = adaptor.encrypt(b32(d), Y, msg, None) or pools.rbytes(rng, 162)
@@ -193,7 +193,7 @@ def wl_adaptor_s2c_ell(u):
 
 def wl_zkp(u):
     rng = u.rng; ctx = u.ctx
-    for it in range(ctx.n(160, 5000)):
+    for it in ctx.iters(160, 5000):
         seed = pools.rbytes(rng, 32); ok, H = zkp.generate(seed); blind = rng.randrange(1, n); value = rng.choice((0, 1, 5, 1000, 2**40))
         gs = fixed(rng, mutate(rng, zkp.gen_ser(H)), 33) if it % 3 == 0 else zkp.gen_ser(H)
         g = u.call("generator_parse", gs, cls="mutated_valid")
@@ -225,7 +225,7 @@ def wl_zkp(u):
 
 def wl_surj_wl(u):
     rng = u.rng; ctx = u.ctx
-    for it in range(ctx.n(120, 4000)):
+    for it in ctx.iters(120, 4000):
         nin = rng.choice((1, 2, 3, 8, 9, 16)); ins = [mulG(rng.randrange(1, n)) for _ in range(nin)]; k = rng.randrange(1, n); j = rng.randrange(nin)
         out = add(ins[j], mulG(k)); used = sorted(set([j] + [rng.randrange(nin) for _ in range(rng.randrange(0, 3))]))
         sb = sj.prove(ins, out, used, used.index(j), k, [rng.randrange(1, n) for _ in used], rng.randrange(1, n))
@@ -266,7 +266,7 @@ def wl_surj_wl(u):
             if p_ is None or p_.ret != 1: continue
             u.call("surj_counts", p_.b(1), cls="chained:surjproof", ret01=False); u.call("surj_serialize", p_.b(1), len(s_), cls="chained:surjproof")
             if g1 is not None and g1.ret == 1: u.call("surj_verify", p_.b(1), g1.b(1) * min(nin, 256), min(nin, 256), g1.b(1), cls="chained:surjproof")
-    for it in range(ctx.n(100, 3000)):
+    for it in ctx.iters(100, 3000):
         nk = rng.choice((0, 1, 2, 3, 8, 255)) if it % 6 else rng.randrange(0, 256)
         nk = min(nk, 12) if ctx.quick and nk != 255 else nk
         keys = [mulG(rng.randrange(1, n)) for _ in range(min(nk, 6) * 2 + 1)]
@@ -294,7 +294,7 @@ def wl_surj_wl(u):
 def wl_bppp_halfagg(u):
     rng = u.rng; ctx = u.ctx
     G8 = bppp.gens(8)
-    for it in range(ctx.n(120, 4000)):
+    for it in ctx.iters(120, 4000):
         k = rng.choice((0, 1, 2, 4, 8)); gser = bppp.gens_ser(G8[:k])
         s = mutate(rng, gser) if it % 2 and gser else (gser if it % 3 else pools.rbytes(rng, rng.choice((0, 1, 32, 33, 34, 65, 66, 67, 99))))
         u.call("bppp_gens_parse", s or b'', len(s) + 33, cls="bppp_generators", ret01=False)
@@ -330,7 +330,7 @@ def wl_crafted(u):
     and random strings never produce them): every such call must still just return 0/1 (seeded change C07-2)"""
     from props.c14 import infinity_cases
     rng = u.rng; ctx = u.ctx
-    for it in range(ctx.n(60, 2000)):
+    for it in ctx.iters(60, 2000):
         for cls, a, X, msg, Y in infinity_cases(rng):
             Xo = u.call("pubkey_parse", ser33(X), cls="setup", nt=False).b(1); Yo = u.call("pubkey_parse", ser33(Y), cls="setup", nt=False).b(1)
             u.call("adaptor_verify", a, Xo, msg, Yo, cls="crafted:adaptor:" + cls)
@@ -359,7 +359,7 @@ def wl_crafted_rings(u):
     range-proof verification"""
     from ref import borromean, whitelist
     rng = u.rng; ctx = u.ctx
-    for it in range(ctx.n(40, 1200)):
+    for it in ctx.iters(40, 1200):
         # surjection: generators g_i*G, ring keys (g_o - g_i)*G
         nin = rng.choice((1, 2, 3, 5)); gs = [rng.randrange(1, n) for _ in range(nin)]; go = rng.randrange(1, n)
         if any(g == go for g in gs): continue
@@ -404,7 +404,7 @@ def wl_dead_objects(u):
     rng = u.rng; ctx = u.ctx
     def refuse(op, *a, cls):
         u.call(op, *a, cls="dead_object:" + cls, ill=1)
-    for it in range(ctx.n(24, 600)):
+    for it in ctx.iters(24, 600):
         bad = u.call("pubkey_parse", bytes([rng.choice((2, 3))]) + b32(rng.choice((p, p + 1, 2**256 - 1, 0))), cls="setup", nt=False)
         good = u.call("pubkey_parse", ser33(mulG(rng.randrange(1, n))), cls="setup", nt=False)
         if bad is None or good is None or bad.ret != 0 or good.ret != 1: continue
